@@ -39,9 +39,13 @@ def main():
     assert diff.strip(), "no change in worktree"
     rc1, out1 = sh("/venv/bin/python -W ignore %s" % demo, cwd=wt, env=env)
     meta["demo_with_change"] = {"exit": rc1, "tail": out1.strip().splitlines()[-3:]}
-    sh("git stash -q", cwd=wt)
+    # (git stash is shared between worktrees of one repository: reverse-apply the diff instead)
+    tmpd = os.path.join(wt, ".seeded_change.diff")
+    open(tmpd, "w").write(diff)
+    sh("git apply -R .seeded_change.diff", cwd=wt)
     rc0, out0 = sh("/venv/bin/python -W ignore %s" % demo, cwd=wt, env=env)
-    sh("git stash pop -q", cwd=wt)
+    sh("git apply .seeded_change.diff", cwd=wt)
+    os.remove(tmpd)
     meta["demo_without_change"] = {"exit": rc0, "tail": out0.strip().splitlines()[-3:]}
     ok = rc1 != 0 and rc0 == 0
     if suite:
